@@ -147,7 +147,7 @@ def run_endings(sc, acc, index):
         acc.skipped[type(e).__name__] += 1
         return
     if sc.anon:
-        exp = [anon_last(o) for o in exp]
+        exp = [anon_bags(sc, o) for o in exp]
     n = len(exp)
     endings = [('exhaust', None)] + [(m, k) for k in range(n + 1) for m in ('close', 'drop') + tuple(THROWN)]
     yp = None
@@ -183,6 +183,21 @@ def run_endings(sc, acc, index):
 def anon_last(o):
     from ..diff import anonymize
     return anonymize(o, [len(o) - 1])
+
+
+def _has_findall(t):
+    return t[0] == 'f' and (t[1] == 'findall' or any(_has_findall(x) for x in t[2]))
+
+
+def anon_bags(sc, o):
+    """observations with the bag variables of findall goals anonymised: the last observed variable (the bag of
+    the goal when it is a findall), and every variable of the goal that is named like an inner bag"""
+    from ..diff import anonymize
+    names = [k for k in term_vars(sc.goal)]
+    idx = [i for i, k in enumerate(names) if k in sc.anon]
+    if not idx:
+        idx = [len(o) - 1]
+    return anonymize(o, [i for i in idx if i < len(o)])
 
 
 def one_ending(sc, yp, args, obs, exp, mode, k):
@@ -222,7 +237,7 @@ def one_ending(sc, yp, args, obs, exp, mode, k):
     if mode == 'drop':
         gc.collect()
     if sc.anon:
-        seen = [anon_last(o) for o in seen]
+        seen = [anon_bags(sc, o) for o in seen]
     want = exp if mode == 'exhaust' else exp[:k]
     if seen != want:
         return ('answers-differ', 'answers seen %s, reference %s' % (show_answers(seen), show_answers(want)))
@@ -241,7 +256,7 @@ def second_run(sc, yp, args, obs, exp):
             q.close()
             break
     if sc.anon:
-        got = [anon_last(o) for o in got]
+        got = [anon_bags(sc, o) for o in got]
     if got != exp:
         return ('second-run-differs', 're-running the query on the same engine and variables gives %s, expected %s' % (show_answers(got), show_answers(exp)))
     return None
@@ -361,7 +376,9 @@ def scen_meta(goal, tag, g2, mk, usesL, via_var, cont):
         if b[0] == 'call' and b[1][0] == 'f':
             for direct in (b[1], F('call', b[1])):
                 label = 'the C09 support predicates; query through the API: %s' % show_term(direct)
-                out.append(Scenario(label, build, direct, (), ref_build=ref_build, anon=('L',) if usesL else ()))
+                # every bag of a findall is observed anonymised (whether its instances share unbound variables with
+                # the caller is not fixed by the property): the outermost one and those of inner findalls
+                out.append(Scenario(label, build, direct, (), ref_build=ref_build, anon=('L', 'L2', 'Bag1', 'Bag2') if _has_findall(direct) else ()))
     return out
 
 
